@@ -2,6 +2,7 @@ package simrt
 
 import (
 	"fmt"
+	"reflect"
 	"unsafe"
 )
 
@@ -387,4 +388,50 @@ func InjectSend[T any](s *Sim, ch chan T, v T) {
 			c.bufvc = append(c.bufvc, nil)
 		}
 	}
+}
+
+// ReflectSelect is reflect.Select on simulated channels.
+func ReflectSelect(cases []reflect.SelectCase) (int, reflect.Value, bool) {
+	var sc []SelCase
+	var orig []int
+	hasDefault := false
+	defIdx := -1
+	for i, c := range cases {
+		switch c.Dir {
+		case reflect.SelectDefault:
+			hasDefault = true
+			defIdx = i
+			continue
+		case reflect.SelectRecv:
+			if !c.Chan.IsValid() || c.Chan.IsNil() {
+				sc = append(sc, SelCase{nilc: true})
+			} else {
+				sc = append(sc, SelCase{c: S.chanOf(c.Chan.Pointer(), c.Chan.Cap(), c.Chan.Interface())})
+			}
+		case reflect.SelectSend:
+			if !c.Chan.IsValid() || c.Chan.IsNil() {
+				sc = append(sc, SelCase{nilc: true, send: true})
+			} else {
+				sc = append(sc, SelCase{c: S.chanOf(c.Chan.Pointer(), c.Chan.Cap(), c.Chan.Interface()), send: true, val: c.Send.Interface()})
+			}
+		default:
+			panic("reflect.Select: invalid Dir")
+		}
+		orig = append(orig, i)
+	}
+	r := Select(hasDefault, sc...)
+	if r.Index < 0 {
+		return defIdx, reflect.Value{}, false
+	}
+	i := orig[r.Index]
+	if cases[i].Dir == reflect.SelectSend {
+		return i, reflect.Value{}, false
+	}
+	et := cases[i].Chan.Type().Elem()
+	if !r.ok || r.val == nil {
+		return i, reflect.Zero(et), r.ok
+	}
+	v := reflect.New(et).Elem()
+	v.Set(reflect.ValueOf(r.val))
+	return i, v, true
 }
